@@ -14,7 +14,8 @@ RULE = ("39 output texts over the printable alphabet ($1, ${x}, $name, backslash
         "substitutions per word and line -- words composed of 2-4 substitutions of either spelling with valid and rejected inner commands and "
         "literal text between them --, rejected inner commands); through the real binary: output literalness with printf, run-exactly-once "
         "with a counting helper, assignments and here-strings; `state`: histories of variable / directory operations some of which are written "
-        "inside a substitution (`true $(cd d1)`, `$(export A=v)`, `$(unset A)`, `$(exit 3)`), observed like C09's script stream. non-trivial = distinct (output, spelling, position, quoting)")
+        "inside a substitution (`true $(cd d1)`, `$(export A=v)`, `$(unset A)`, `$(exit 3)`), observed like C09's script stream; `fcap`: the inner command is a shell function whose body is a generated block "
+        "(C14's generator): the captured text must be the ids printed by exactly the commands the structured semantics runs. non-trivial = distinct (output, spelling, position, quoting)")
 
 
 def mk(p, pre, form, cmd, post, dq, out, meta, key=None):
@@ -120,7 +121,72 @@ def process(tier, rng, cicada):
     global ONCE
     ONCE = once
     scases, simpl = substate(tier, rng, cicada)
-    return [("-c", cases, impl), ("state", scases, simpl)]
+    fcases, fimpl = funcap(tier, rng, cicada)
+    return [("-c", cases, impl), ("state", scases, simpl), ("fcap", fcases, fimpl)]
+
+
+def funcap(tier, rng, cicada):
+    """the inner command is a shell FUNCTION whose body is a generated block (if / else if / else, for, while, break, continue --
+    the generator of C14): `argv "$(f)"` must receive the ids printed by exactly the commands the structured semantics runs"""
+    from . import c14
+    r = rng.fork("c11-fcap")
+    n = 40 if tier == "quick" else 800
+    cases = []
+    for i in range(n):
+        g = c14.Gen(r)
+        g.hashy = False
+        b = g.block(1 + r.below(3), False, [14])
+        body = "\n".join(c14.render(b, r.choice(["nl", "semi"]), None)) + "\n"
+        seq = {}
+        for c_ in range(1, g.cond + 1):
+            seq["cond %d" % c_] = [0] * r.below(3) + [r.choice([1, 2])]
+        w = " ".join(c14.wire(b))
+        for n_ in range(1, g.n + 1):
+            body = body.replace("stage %d 0\n" % n_, "stage %d 0 p\n" % n_)
+            seq["stage %d 0 p" % n_] = [0]
+            w = w.replace(hx("stage %d 0" % n_), hx("stage %d 0 p" % n_))
+        seqf = ",".join(hx(k) + ":" + ".".join(str(x) for x in v) for k, v in seq.items()) or "[]"
+        c = Case("fcap", [gens.env_field(exported={"HOME": "/h"}), hx(body), ",".join(hx(x) for x in ["cicada", "s.sh"]), seqf, "[]", w],
+                 {"gen": "p", "t": body, "seq": seq, "k": ("fcap", w)})
+        c.id = "f%d" % i
+        cases.append(c)
+    sb = proc.Sandbox("c11f")
+
+    def one(c):
+        d = os.path.join(sb.dir, c.id)
+        os.makedirs(d)
+        for k, v in c.meta["seq"].items():
+            if k.startswith("cond "):
+                open(os.path.join(d, k.split()[1] + ".seq"), "w").write(" ".join(str(x) for x in v))
+        open(os.path.join(d, "s.sh"), "w").write("function f() {\n" + c.meta["t"] + "}\nargv \"$(f)\"\n")
+        log = os.path.join(d, "trace.log")
+        alog = os.path.join(d, "argv.log")
+        try:
+            p = subprocess.run([cicada, os.path.join(d, "s.sh")], cwd=d, env=sb.env({"STAGE_LOG": log, "COND_DIR": d, "ARGV_LOG": alog}),
+                               stdin=subprocess.DEVNULL, stdout=subprocess.PIPE, stderr=subprocess.PIPE, timeout=30)
+        except subprocess.TimeoutExpired:
+            return c.id, "HANG"
+        if b"syntax error" in p.stderr:
+            return c.id, "SYNTAX-ERROR"
+        out = []
+        if os.path.exists(log):
+            for ln in open(log).read().split("\n"):
+                if not ln:
+                    continue
+                name, st = ln.rsplit(":", 1)
+                text = name if name.startswith("cond ") else "stage %s %s p" % (name, st)
+                out.append("%s:%s:" % (hx(text), st))
+        got = "NOT-RUN"
+        if os.path.exists(alog):
+            lines = open(alog).read().split("\n")
+            if lines and lines[0]:
+                k = int(lines[0])                     # the record holds argv[0] too
+                got = lines[2] if k == 2 else "ARGC=%d" % (k - 1)
+        return c.id, (",".join(out) or "[]") + "#" + got
+
+    impl = dict(proc.pmap(one, cases))
+    sb.cleanup()
+    return cases, impl
 
 
 WRAP_CD = ["d1", "d1/d2", "..", "l1", "lrel", "nope", "d1/f", "@R/d1", "@R/l1"]
